@@ -56,11 +56,11 @@ structure Hyps (E : Env) (F : FloatC) : Prop where
   /-- the moderate stage declines only on non-zero significands with a moderate decimal exponent
       (the slow path's i32 exponent arithmetic and its use of an empty big integer rely on it) -/
   modRange : ∀ n fp, NumOK n → moderatePath E F n = some fp → fp.exp < 0 →
-    n.mantissa ≠ 0 ∧ -1000 ≤ n.exponent ∧ n.exponent ≤ 1000
+    n.mantissa ≠ 0 ∧ -400 ≤ n.exponent ∧ n.exponent ≤ 400
   /-- big-integer path (slow.rs, bigint.rs): correct whenever the hand-off contract holds -/
   slow : ∀ int frac e fp, Valid int frac e →
-    (parseNumber int frac e).mantissa ≠ 0 → -1000 ≤ (parseNumber int frac e).exponent →
-    (parseNumber int frac e).exponent ≤ 1000 → EstOK F fp (digitsValue int frac e) →
+    (parseNumber int frac e).mantissa ≠ 0 → -400 ≤ (parseNumber int frac e).exponent →
+    (parseNumber int frac e).exponent ≤ 400 → EstOK F fp (digitsValue int frac e) →
     ∃ r, slow E.cap E.pow F (parseNumber int frac e) fp int frac = some r ∧
       extendedToFloat F r = rne F.fmt (digitsValue int frac e)
 
